@@ -134,6 +134,20 @@ void vf_run_case(Ctx& c, uint64_t index) {
   }
   if (r.chance(1, 6)) { size_t p = text.find_first_of(",[{"); if (p != std::string::npos) text.insert(p + 1, r.coin() ? "/*x*/" : "//y\n"); }
   if (r.chance(1, 8)) { static const char* sp[] = {"NaN", "-NaN", "Infinity", "-Infinity", "inf", "nan", "+5", ".5", "5.", "1e", "007", "-", "+", "1e5.", "0x10", "1_000"}; size_t p = text.find_first_of("0123456789"); if (p != std::string::npos) text.replace(p, 1, r.pick(sp)); }
+  if (r.chance(1, 12)) {   // number tokens around the 63-character limit
+    size_t n = (size_t)r.range(60, 72);
+    std::string tok;
+    switch (r.below(4)) {
+      case 0: tok = "1." + std::string(n - 4, '0') + "e5"; break;
+      case 1: tok = std::string(n, '7'); break;
+      case 2: tok = "0." + std::string(n - 6, '0') + "1e80"; break;
+      default: tok = "-" + std::string(n - 3, '9') + ".5"; break;
+    }
+    size_t p = text.find_first_of("0123456789");
+    if (p != std::string::npos && r.coin()) { size_t e = text.find_first_not_of("0123456789.eE+-", p); text.replace(p, (e == std::string::npos ? text.size() : e) - p, tok); }
+    else text = r.coin() ? tok : (r.coin() ? "[" + tok + "]" : "{\"k\":" + tok + "}");
+    c.count("long_number_tokens");
+  }
   judge(c, text, limit, input_class_name(in.cls));
   c.nontrivial(fnv1a(text, (uint64_t)limit));
   if (c.want_sample()) c.sample(printable(text, 200));
